@@ -279,14 +279,17 @@ fn short_string(mut i: u64) -> String {
     s.iter().rev().collect()
 }
 fn short_bytes(i: u64) -> Vec<u8> {
-    // every byte string of length <= 2
+    // every byte string of length <= 3: index 0 = empty, then length 1, 2, 3
     if i == 0 {
         vec![]
     } else if i <= 256 {
         vec![(i - 1) as u8]
-    } else {
+    } else if i < 257 + 65536 {
         let j = i - 257;
         vec![(j >> 8) as u8, j as u8]
+    } else {
+        let j = i - 257 - 65536;
+        vec![(j >> 16) as u8, (j >> 8) as u8, j as u8]
     }
 }
 
@@ -316,7 +319,7 @@ fn field<F: FpApi>(run: &Run) {
         |i| json!({"op": "c13.bytes", "field": F::NAME, "bytes": jb(&bs[i as usize])}),
     );
     run.grid(
-        Spec { name: &format!("c13.{}.every-bytes-len<=2", F::NAME), n: 65793, classes: &[], required: &[] },
+        Spec { name: &format!("c13.{}.every-short-byte-string", F::NAME), n: if thorough { 65793 + (1 << 24) } else { 65793 }, classes: &[], required: &[] },
         |i| {
             let b = short_bytes(i);
             let k = bytes_case::<F>(&b)?;
@@ -366,7 +369,7 @@ pub fn run(run: &Run) {
         |i| json!({"op": "c13.hash", "bytes": jb(&hb[i as usize])}),
     );
     run.grid(
-        Spec { name: "c13.Fr.from_hash.every-bytes-len<=2", n: 65793, classes: &[], required: &[] },
+        Spec { name: "c13.Fr.from_hash.every-short-byte-string", n: if thorough { 65793 + (1 << 24) } else { 65793 }, classes: &[], required: &[] },
         |i| {
             hash_case(&short_bytes(i))?;
             Ok(Tally::new(1, true, 0))
@@ -429,7 +432,7 @@ pub fn meta(_run: &Run) -> Meta {
                except the empty string."
             .into(),
         engine: "sm9mc-grid".into(),
-        bounds: json!({"max_len": 70, "short_bytes_len": 2, "short_string_len": 3, "bit_indices": 301}),
+        bounds: json!({"max_len": 70, "short_bytes_len": _run.tier.pick(2, 3), "short_string_len": 3, "bit_indices": 301}),
         assumptions: vec!["from_str(\"\") and setting a bit index >= 256 are deliberately unconstrained (see DESIGN.md C13 'N')".into()],
     }
 }
